@@ -17,6 +17,7 @@
 package log
 
 import (
+	"bytes"
 	"sort"
 	"sync/atomic"
 
@@ -304,6 +305,9 @@ func (c *AsyncLogger) Append(e *Event) {
 // Write enqueues raw bytes into the buffer.
 // Behavior on full buffer depends on BufferFullPolicy.
 func (c *AsyncLogger) Write(b []byte) {
+	// The bytes are consumed later by the worker; the caller
+	// may reuse its buffer as soon as Write returns.
+	b = bytes.Clone(b)
 	select {
 	case c.buf <- b:
 	default:
